@@ -136,11 +136,12 @@ func init() {
 	c17r.Steps = 70
 	sup.Register(&sup.Check{
 		Prop: "C17", Level: "exploration",
-		Rule:        "engine A: after every step the model's revision counter (previous+1 on success, unchanged on failure, 1 on creation or re-creation after purge) is compared through four observers: $document.revid, the revid inside $document, RevNo of the live event and RevNo of the key's backfill event; every entry point x pre-state enumerated plus random histories; cell = (op variant, pre-state class, outcome, bucket type)",
+		Rule:        "(concurrent) 2-6 goroutines over 1-3 handles mutate one key through body writes, touches, xattr-only writes, sub-document writes, deletions and re-creations: the final $document.revid must be the start value plus the number of acknowledged mutations, and the RevNo values of the key's live events must be strictly increasing and end at that number; (sequential) engine A: after every step the model's revision counter (previous+1 on success, unchanged on failure, 1 on creation or re-creation after purge) is compared through four observers: $document.revid, the revid inside $document, RevNo of the live event and RevNo of the key's backfill event; every entry point x pre-state enumerated plus random histories; cell = (op variant, pre-state class, outcome, bucket type)",
 		Assumptions: kvAssume,
 		Parts: []sup.Part{
 			exhaustivePart("exhaustive", c17),
 			randomPart("random", 800, 12000, c17r),
+			{Name: "concurrent-count", Timeout: 90 * time.Second, Count: func(t string) int { return tierN(t, 120, 2400) }, Run: revCountScenario},
 		},
 		Floor: cellsFloor(300),
 	})
